@@ -60,6 +60,12 @@ def pruneIntermediateScalar (f : Bytes) : Bytes :=
   let f := f.set 30 0
   f.set 31 0
 
+/-- a list of `s[i] &= k` / `s[i] |= k` / `s[i] = k` statements applied in order (the form in which
+    `Gen/KDUnroll` reports the bodies of the two prune functions) -/
+def applyMaskOps (ops : List (Nat × String × Nat)) (s : Bytes) : Bytes :=
+  ops.foldl (fun s o =>
+    s.set o.1 (if o.2.1 = "and" then s.getD o.1 0 &&& o.2.2 else if o.2.1 = "or" then s.getD o.1 0 ||| o.2.2 else o.2.2)) s
+
 /-- the unrolled `sum = int(xprv[i]) + int(res[i]) + (sum >> 8); res[i] = byte(sum & 0xff)`,
     i = 0 … 31, as a fold; returns the bytes and the last `sum` -/
 def carryAdd : Bytes → Bytes → Nat → Bytes × Nat
